@@ -727,6 +727,12 @@ def _ite_struct(ce, a, b):
         return _ite_struct(ce, a, a.literal(b))
     if isinstance(b, SOpaque) and b.admits_literal(a):
         return _ite_struct(ce, b.literal(a), b)
+    if getattr(a, "is_text", False) and getattr(b, "is_text", False) and a.kind == b.kind:
+        # two texts of one kind (e.g. the text component of an element read at a symbolic index out of `old ++ [new]`):
+        # the derived text whose length, elements and widths are the conditionals (pyvc.text.STextIte)
+        from .text import STextIte
+
+        return STextIte(mk_bool(ce), a, b)
     if type(a).__name__ in _SEQ_NAMES or type(b).__name__ in _SEQ_NAMES:
         # two immutable sequence values (rows of a nested list): pointwise conditional
         from .seqs import SSeq, seq_len, to_sseq
@@ -737,6 +743,11 @@ def _ite_struct(ce, a, b):
             def pointwise(j):
                 # an index beyond the (concrete) length of one alternative can only be an element of the other one
                 la, lb = seq_len(sa), seq_len(sb)
+                # (an EMPTY concrete alternative has no element at all: any in-range index belongs to the other one)
+                if isinstance(la, int) and la == 0:
+                    return sb.get(j)
+                if isinstance(lb, int) and lb == 0:
+                    return sa.get(j)
                 if isinstance(j, int) and isinstance(la, int) and not 0 <= j < la:
                     return sb.get(j)
                 if isinstance(j, int) and isinstance(lb, int) and not 0 <= j < lb:
@@ -895,6 +906,21 @@ def forall(lo, hi, fn, check_empty=True):
         # in-range index: they are asserted on their own, not made part of the formula (which may be a goal)
         st.assume(z3.ForAll([j], z3.Implies(rng, z3.And(*facts))))
     return mk_bool(z3.ForAll([j], z3.Implies(rng, b)))
+
+
+_ZSTR: dict = {}
+
+
+def zstr(e):
+    """`str(e)` of a z3 term, cached per term (pretty-printing a large index term again and again dominated the run time of
+    the container contracts).  The cache holds the term itself, so its id is not reused while the entry exists."""
+    k = e.get_id()
+    hit = _ZSTR.get(k)
+    if hit is None:
+        if len(_ZSTR) > 200000:
+            _ZSTR.clear()
+        hit = _ZSTR[k] = (e, str(e))
+    return hit[1]
 
 
 def arbitrary(name):
